@@ -66,6 +66,16 @@ def stepC24 : List String → String
       match ps.mapM prod? with
       | some l => " ".intercalate ((sortProducers l).map (fun (p : Producer × List Nat) => hexOf p.1.key))
       | none => "bad-op"
+  | "wrand" :: seed :: normal :: cands :: period :: height :: unclaimed :: lastH :: lastO :: iso :: env :: _blk :: _tip :: ps =>
+      match (if seed = "none" then some none else (int? seed).map some), int? normal, int? cands, nat? period, nat? height,
+            int? unclaimed, nat? lastH, (if lastO = "-" then some [] else bytesOf? lastO), nat? iso, envOps? env, ps.mapM prod? with
+      | some seed?, some normal, some cands, some period, some height, some unclaimed, some lastH, some lastO, some iso, some env, some l =>
+          let owners := (sortProducers l).map (fun (p : Producer × List Nat) => p.2)
+          match withRandom (oracleGen (seed?.getD 0) iso) .local seed? owners unclaimed normal cands period height ⟨lastH, lastO⟩ env (0, 0) with
+          | .ok (res, last) => ",".intercalate (res.map hexOf) ++ s!" last={last.height}:" ++ (if last.owner.isEmpty then "-" else hexOf last.owner)
+          | .error .noBlock => "err noblock"
+          | .error .notEnough => "err notenough"
+      | _, _, _, _, _, _, _, _, _, _, _ => "bad-op"
   | "randv2" :: seed :: normal :: crc :: unclaimed :: draws :: env :: _blk :: _tip :: ps =>
       match int? seed, nat? normal, nat? crc, nat? unclaimed, natList? draws, envOps? env, ps.mapM prod? with
       | some seed, some normal, some crc, some unclaimed, some draws, some env, some l =>
